@@ -743,7 +743,7 @@ static void mode_solve(uint64_t seed, bool th) {
     }
     // thin strips: one grid line per rank (every row has off-rank neighbours), every run-time relaxation type with CG
     {
-        int ny = NP > 1 ? NP : 4, nx = g.range(std::max(14, 60 / ny + 1), 28);
+        int ny = NP > 1 ? NP : 4, nx = g.range(200, 280);      // long lines: the local block badly underestimates the spectrum
         auto A = vr::poisson2d(nx, ny);
         int n = A->nrows;
         part rp(NP + 1, 0); for (int r = 0; r <= NP; ++r) rp[r] = NP > 1 ? r * nx : (r ? n : 0);
